@@ -154,9 +154,13 @@ theorem handleMessage_wire (env : CryptoEnv) (bodyOf : Init.BodyOf) (ok : Bytes 
       · split
         · trivial
         · split
-          · split
-            · exact Or.inl rfl
+          · rename_i pc1 _ _ body _ _
+            generalize body ++ (if pc1.unencrypted then tail else []) = dat
+            split
             · trivial
+            · split
+              · exact Or.inl rfl
+              · trivial
           · exact Or.inl rfl
 
 theorem everySecond_outWire (pc : PeerCrypto) (rr : RotRand) :
@@ -974,7 +978,10 @@ theorem handleMessage_plainOK (K : NodeCfg) (env : CryptoEnv) (bodyOf : Init.Bod
         | cons ty body =>
           simp only []
           split
-          · have hr := handleRotate_iu pc1 (body ++ (if pc1.unencrypted then tail else [])) rr
+          · by_cases hpan : PeerCrypto.rotatePanics pc1 (body ++ (if pc1.unencrypted then tail else [])) = true
+            · rw [if_pos hpan]; trivial
+            rw [if_neg hpan]
+            have hr := handleRotate_iu pc1 (body ++ (if pc1.unencrypted then tail else [])) rr
             rcases hrot : PeerCrypto.handleRotate pc1 (body ++ (if pc1.unencrypted then tail else [])) rr with ⟨pc2, r2⟩
             rw [hrot] at hr
             cases r2 with
@@ -1259,7 +1266,10 @@ theorem handleMessage_unenc_cases (env : CryptoEnv) (bodyOf : Init.BodyOf) (ok :
         | cons ty body =>
           simp only []
           split
-          · have hr := handleRotate_iu pc1 (body ++ (if pc1.unencrypted then tail else [])) rr
+          · by_cases hpan : PeerCrypto.rotatePanics pc1 (body ++ (if pc1.unencrypted then tail else [])) = true
+            · rw [if_pos hpan]; trivial
+            rw [if_neg hpan]
+            have hr := handleRotate_iu pc1 (body ++ (if pc1.unencrypted then tail else [])) rr
             rcases hrot : PeerCrypto.handleRotate pc1 (body ++ (if pc1.unencrypted then tail else [])) rr with ⟨pc2, r2⟩
             rw [hrot] at hr
             cases r2 with
@@ -1696,7 +1706,10 @@ theorem handleMessage_pcwf (env : CryptoEnv) (bodyOf : Init.BodyOf) (ok : Bytes 
         | cons ty body =>
           simp only []
           split
-          · have hr := handleRotate_pcwf pc1 (body ++ (if pc1.unencrypted then tail else [])) rr hi
+          · by_cases hpan : PeerCrypto.rotatePanics pc1 (body ++ (if pc1.unencrypted then tail else [])) = true
+            · rw [if_pos hpan]; trivial
+            rw [if_neg hpan]
+            have hr := handleRotate_pcwf pc1 (body ++ (if pc1.unencrypted then tail else [])) rr hi
             rcases hrot : PeerCrypto.handleRotate pc1 (body ++ (if pc1.unencrypted then tail else [])) rr with ⟨pc2, r2⟩
             rw [hrot] at hr
             cases r2 with
